@@ -17,6 +17,7 @@
 package frame
 
 import (
+	"bytes"
 	"encoding/binary"
 	"github.com/go-netty/go-netty"
 	"github.com/go-netty/go-netty/codec"
@@ -49,7 +50,13 @@ func (v *varintLengthFieldCodec) HandleRead(ctx netty.InboundContext, message ne
 	utils.AssertIf(frameLength > uint64(v.maxFrameLength),
 		"frame length too large, frameLength(%d) > maxFrameLength(%d)", frameLength, v.maxFrameLength)
 
-	ctx.HandleRead(io.LimitReader(reader, int64(frameLength)))
+	// read the whole frame body (its length is validated above) so that a
+	// truncated frame raises an exception instead of being delivered
+	bodyBuffer := make([]byte, frameLength)
+	n, err := io.ReadFull(reader, bodyBuffer)
+	utils.AssertIf(n != len(bodyBuffer) || nil != err, "read frame body fail, bodyLength: %d, read: %d, error: %w", len(bodyBuffer), n, err)
+
+	ctx.HandleRead(bytes.NewReader(bodyBuffer))
 }
 
 func (v *varintLengthFieldCodec) HandleWrite(ctx netty.OutboundContext, message netty.Message) {
